@@ -117,6 +117,9 @@ Fixpoint m_pending (bound : nat) (evs : list event) : bool :=
 (** C14: LastPanic is the value of a panic raised before the call returned; it never goes back to nil
     (nil is wrong if a call that completed before this one began already showed a value, or if the
     call began after Wait() returned and some task had panicked) *)
+(** value id 0 stands for "the nil panic value": a task did panic(nil) in a program where recover() then returns
+    nil (GODEBUG=panicnil=1). nil IS the value of a panic that occurred: once such a panic happened, LastPanic may
+    be nil/unset at any time (an implementation may store it, or may not notice it at all). *)
 Fixpoint m_lastpanic (raised : list pv) (seenval waited : bool) (open : list (nat * bool)) (evs : list event) : bool :=
   match evs with
   | [] => true
@@ -130,7 +133,7 @@ Fixpoint m_lastpanic (raised : list pv) (seenval waited : bool) (open : list (na
       match v with
       | LForeign => false
       | LVal x => mem x raised && m_lastpanic raised true waited open r
-      | LNone => negb must && m_lastpanic raised seenval waited open r
+      | LNone => (negb must || mem 0 raised) && m_lastpanic raised seenval waited open r
       end
   | _ :: r => m_lastpanic raised seenval waited open r
   end.
@@ -166,20 +169,21 @@ Fixpoint m_after_cancel (xe : bool) (evs : list event) : bool :=
     reports exactly the accepted tasks that were never started: (#pushes that returned nil) - (#S).
     This is what every all-dead state of the model gives: a task left in a buffer stays in its length,
     a task the queue goroutine held when it died stays in the counter (QDead (Some t)), nothing else remains. *)
-Fixpoint m_pending_after_wait (oks ss : nat) (open : list nat) (waited : bool) (clean : list nat) (evs : list event) : bool :=
+Fixpoint m_pending_after_wait (exact : bool) (oks ss : nat) (open : list nat) (waited : bool) (clean : list nat) (evs : list event) : bool :=
   match evs with
   | [] => true
-  | EB p _ _ :: r => m_pending_after_wait oks ss (p :: open) waited [] r          (* a call in flight spoils the calls being measured *)
-  | ER p (Some ROk) :: r => m_pending_after_wait (S oks) ss (remove1 p open) waited clean r
-  | ER p _ :: r => m_pending_after_wait oks ss (remove1 p open) waited clean r
-  | ES _ :: r => m_pending_after_wait oks (S ss) open waited clean r
-  | EW :: r => m_pending_after_wait oks ss open true clean r
+  | EB p _ _ :: r => m_pending_after_wait exact oks ss (p :: open) waited [] r          (* a call in flight spoils the calls being measured *)
+  | ER p (Some ROk) :: r => m_pending_after_wait exact (S oks) ss (remove1 p open) waited clean r
+  | ER p _ :: r => m_pending_after_wait exact oks ss (remove1 p open) waited clean r
+  | ES _ :: r => m_pending_after_wait exact oks (S ss) open waited clean r
+  | EW :: r => m_pending_after_wait exact oks ss open true clean r
   | EQb o :: r =>
       let clean' := if waited && (match open with [] => true | _ => false end) then o :: clean else clean in
-      m_pending_after_wait oks ss open waited clean' r
+      m_pending_after_wait exact oks ss open waited clean' r
   | EQe o pd _ :: r =>
-      (negb (mem o clean) || Nat.eqb (pd + ss) oks) && m_pending_after_wait oks ss open waited clean r
-  | _ :: r => m_pending_after_wait oks ss open waited clean r
+      (negb (mem o clean) || (if exact then Nat.eqb (pd + ss) oks else pd + ss <=? oks)) &&
+      m_pending_after_wait exact oks ss open waited clean r
+  | _ :: r => m_pending_after_wait exact oks ss open waited clean r
   end.
 
 (** every PushTask call has returned by the end of the history (histories are written after the run has
@@ -206,7 +210,9 @@ Record monitors := {
   mo_once : bool; mo_started_pushed : bool; mo_failed_not_started : bool; mo_results : bool;
   mo_fin : bool; mo_bound : bool; mo_pending : bool; mo_lastpanic : bool;
   mo_after_wait : bool; mo_leak : bool; mo_after_cancel : bool;
-  mo_pending_after_wait : bool; mo_push_returns : bool; mo_obs_ids : bool }.
+  mo_pending_after_wait : bool;      (* C14: exactly accepted - started *)
+  mo_pending_after_wait_le : bool;   (* C06/C07/C08: nothing but accepted, unstarted tasks is counted (dropped tasks may be forgotten) *)
+  mo_push_returns : bool; mo_obs_ids : bool }.
 
 Definition run_monitors (n qs : nat) (evs : list event) : monitors :=
   {| mo_once := m_once [] evs;
@@ -220,7 +226,8 @@ Definition run_monitors (n qs : nat) (evs : list event) : monitors :=
      mo_after_wait := m_after_wait 0 false evs;
      mo_leak := m_leak evs;
      mo_after_cancel := m_after_cancel false evs;
-     mo_pending_after_wait := m_pending_after_wait 0 0 [] false [] evs;
+     mo_pending_after_wait := m_pending_after_wait true 0 0 [] false [] evs;
+     mo_pending_after_wait_le := m_pending_after_wait false 0 0 [] false [] evs;
      mo_push_returns := m_push_returns [] evs;
      mo_obs_ids := m_obs_ids [] [] evs |}.
 
@@ -228,6 +235,13 @@ Definition monitors_ok (m : monitors) : bool :=
   mo_once m && mo_started_pushed m && mo_failed_not_started m && mo_results m && mo_fin m && mo_bound m &&
   mo_pending m && mo_lastpanic m && mo_after_wait m && mo_leak m && mo_after_cancel m &&
   mo_pending_after_wait m && mo_push_returns m && mo_obs_ids m.
+
+(** for the properties that do not speak about the value of PendingTask at rest (C06: "pending tasks may be
+    dropped"): after Wait() only the upper bound is required *)
+Definition monitors_ok_lax (m : monitors) : bool :=
+  mo_once m && mo_started_pushed m && mo_failed_not_started m && mo_results m && mo_fin m && mo_bound m &&
+  mo_pending m && mo_lastpanic m && mo_after_wait m && mo_leak m && mo_after_cancel m &&
+  mo_pending_after_wait_le m && mo_push_returns m && mo_obs_ids m.
 
 (* ------------------------------------------------------------------ *)
 (** * Part 2: acceptor *)
@@ -557,11 +571,26 @@ Fixpoint accept (fuel : nat) (c : actx) (belief : list state) (evs : list event)
   end.
 End Acceptor.
 
-Definition accept_history (n qs fuel : nat) (reduce : bool) (evs : list event) : aresult :=
+(** C06 / C07 / C08 do not speak about the value of PendingTask once the lane has shut down ("pending tasks may
+    be dropped"): for them ([lax]) the Status() calls made after Wait() returned are left to the monitors
+    (LastPanic is a raised panic, PendingTask <= accepted - started) and are not shown to the acceptor, whose model
+    keeps dropped tasks counted. C14 ([lax = false]) checks them against the model exactly. *)
+Fixpoint strip_status_after_wait (waited : bool) (evs : list event) : list event :=
+  match evs with
+  | [] => []
+  | EW :: r => EW :: strip_status_after_wait true r
+  | EQb o :: r => if waited then strip_status_after_wait waited r else EQb o :: strip_status_after_wait waited r
+  | EQe o p v :: r => if waited then strip_status_after_wait waited r else EQe o p v :: strip_status_after_wait waited r
+  | e :: r => e :: strip_status_after_wait waited r
+  end.
+
+Definition accept_history (n qs fuel : nat) (reduce lax : bool) (evs : list event) : aresult :=
+  let evs := if lax then strip_status_after_wait false evs else evs in
   accept qs n (mk_look evs) reduce true fuel actx0 [init n] evs 0 1.
 
 (** the plain semantics: no reduction, no look-ahead pruning (reference for the comparison run) *)
-Definition accept_history_plain (n qs fuel : nat) (evs : list event) : aresult :=
+Definition accept_history_plain (n qs fuel : nat) (lax : bool) (evs : list event) : aresult :=
+  let evs := if lax then strip_status_after_wait false evs else evs in
   accept qs n (mk_look evs) false false fuel actx0 [init n] evs 0 1.
 
 (* ------------------------------------------------------------------ *)
@@ -570,11 +599,15 @@ Definition accept_history_plain (n qs fuel : nat) (evs : list event) : aresult :
 Record verdict := { v_mon : monitors; v_acc : aresult }.
 
 Definition check_history (n qs fuel : nat) (evs : list event) : verdict :=
-  {| v_mon := run_monitors n qs evs; v_acc := accept_history n qs fuel true evs |}.
+  {| v_mon := run_monitors n qs evs; v_acc := accept_history n qs fuel true false evs |}.
+Definition check_history_lax (n qs fuel : nat) (evs : list event) : verdict :=
+  {| v_mon := run_monitors n qs evs; v_acc := accept_history n qs fuel true true evs |}.
 
 (** true = nothing to report for this history (monitors hold and the model did not reject it;
     running out of fuel is counted separately by the driver, it is not a rejection) *)
 Definition verdict_ok (v : verdict) : bool :=
   monitors_ok (v_mon v) && match v_acc v with Rejected _ _ => false | _ => true end.
+Definition verdict_ok_lax (v : verdict) : bool :=
+  monitors_ok_lax (v_mon v) && match v_acc v with Rejected _ _ => false | _ => true end.
 
 Definition default_fuel : nat := 20 * 1000.
